@@ -113,7 +113,13 @@ CLAIMS.update({
          "RECOVERABILITY (Props/C04x, Lemmas/CrashRefine): ANY operation killed at any call / torn at any length leaves a "
          "healthy cache whose abstract state is old, new, or (keyed write) old index over a store that already holds the new "
          "content; any later operation sequence answers exactly as the abstract map says from there; a later write of any key "
-         "succeeds and reads back; the interrupted key reads its old value or exactly the new data. Tie: torn-append "
+         "succeeds and reads back; the interrupted key reads its old value or exactly the new data. REMOVALS, CLEAR, LINK COMMIT "
+         "(Lemmas/CrashMore): remove_fully killed anywhere leaves a healthy cache in the old, the dangling (content gone, entry "
+         "still there) or the new abstract state, a retry ends where an uninterrupted removal ends, later writes work; clear "
+         "killed anywhere - every order of the children, every tear of remove_dir_all - leaves a healthy sub-cache that a later "
+         "clear empties; the link_to commit killed anywhere leaves the old node or the new link at the address, the target "
+         "untouched, the index old or old + the one new entry (removeFully_crash, removeFully_retry_completes, clear_crash, "
+         "lcommit_crash, crash_then_continue_ext). Tie: torn-append "
          "buckets at sampled byte lengths incl. multi-byte UTF-8 via the reference encoder, real SIGKILL sweeps with "
          "old-or-new / other-keys / visible=>readable / later-write monitors.",
     note=TB + "TornLaws.prefix_none (a strict prefix of a record line does not decode) is PROVED for the concrete codec and "
